@@ -84,12 +84,13 @@ class Ref:
 class FnP:
     """function item / pointer.  kind: 'fn' (MIR body), 'ctor' (enum/struct constructor),
     'closure' (MIR body taking an env pointer first), 'ext' (summarised)"""
-    __slots__ = ('name', 'kind', 'fn')
+    __slots__ = ('name', 'kind', 'fn', 'env')
 
-    def __init__(self, name, kind, fn=None):
+    def __init__(self, name, kind, fn=None, env=None):
         self.name = name
         self.kind = kind
         self.fn = fn
+        self.env = env
 
     def __repr__(self):
         return 'FnP(%s)' % self.name
@@ -192,6 +193,14 @@ class Fork:
 
     def __init__(self, branches):
         self.branches = branches
+
+
+class Multi:
+    """returned by a higher-order summary that explored nested calls itself: list of (state, value)
+    (value may be a PanicResult)"""
+
+    def __init__(self, results):
+        self.results = results
 
 
 class PanicResult:
@@ -328,6 +337,7 @@ class Executor:
     def __init__(self, program, summaries=None, timeout_ms=20000, max_steps=200000):
         self.prog = program
         self.summaries = summaries or []
+        self.overrides = []
         self.timeout_ms = timeout_ms
         self.reset_solver()
         self.queries = 0
@@ -336,6 +346,7 @@ class Executor:
         self.discr = dict(DISCR)
         self.statics = {}            # fid(<0) -> Frame  (promoted / named constants)
         self.const_cache = {}
+        self.const_frames = {}
         self.next_static = -1
         self.paths = 0
         self.fn_cover = {}           # fn name -> set of executed bbs
@@ -552,6 +563,19 @@ class Executor:
             return self.fnitem(fr, t)
         if k == 'promoted':
             return self.eval_const_fn(self.prog.promoted.get((fr.fn.name, c[1])), '%s::promoted[%d]' % (fr.fn.name, c[1]))
+        if k == 'alloc':
+            owner = fr.fn
+            sname = owner.allocs.get(c[1]) if owner is not None else None
+            if sname is None:
+                raise Inconclusive('unknown allocation ' + c[1])
+            f = self.prog.by_name.get(sname)
+            if f is None:
+                cands = [x for x in self.prog.fns if x.kind == 'const' and (x.name == sname or x.name.endswith('::' + sname))]
+                f = cands[0] if len(cands) == 1 else None
+            if f is None:
+                raise Inconclusive('static %s not found' % sname)
+            self.eval_const_fn(f, sname)
+            return Ref(self.const_frames[f.name], 0, ())
         if k == 'named':
             name = c[1]
             last = [s for s in P.split_top(name, ':') if s][-1]
@@ -593,6 +617,8 @@ class Executor:
         if len(res) != 1 or res[0][0] != 'return':
             raise Inconclusive('constant %s did not evaluate to a single value' % what)
         self.const_cache[f.name] = res[0][2]
+        self.const_frames[f.name] = fid
+        fr.locals[0] = res[0][2]
         return res[0][2]
 
     def closure_value(self, fr, t):
@@ -697,7 +723,10 @@ class Executor:
             x = self.operand(st, fr, rv[1])
             return A([x] * int(m.group(1)))
         if k == 'closure':
-            return self.closure_value(fr, rv[1])
+            c = self.closure_value(fr, rv[1])
+            if rv[2]:
+                return FnP(c.name, 'closure', c.fn, A([self.operand(st, fr, x) for _, x in rv[2]]))
+            return c
         raise Inconclusive('rvalue ' + repr(rv))
 
     def is_enum_variant(self, segs, name):
@@ -1049,13 +1078,14 @@ class Executor:
 
     def invoke(self, st, fr, target, text, args, dest, ret_bb, work, results):
         if target.kind == 'fn':
-            # summaries may override crate functions (harness helpers)
-            h = self.find_summary(text or target.name)
+            # only harness overrides (vlog, decide, ...) take precedence over a MIR body; std
+            # summaries are used for callees without a body
+            h = self.find_override(text or target.name)
             if h is None:
                 self.push_call(st, target.fn, args, dest, ret_bb, fr.fid)
                 return None
         elif target.kind == 'closure':
-            self.push_call(st, target.fn, [UNIT] + list(args), dest, ret_bb, fr.fid)
+            self.push_call(st, target.fn, [self.env_ref(st, target)] + list(args), dest, ret_bb, fr.fid)
             return None
         elif target.kind == 'ctor':
             val = E(target.name, args) if target.name in self.discr else A(args)
@@ -1101,6 +1131,14 @@ class Executor:
                 self.finish(results, 'panic', st, v.msg)
                 return 'dead'
             return self.after_call(st, fr, dest, ret_bb, v)
+        if isinstance(res, Multi):
+            for s2, v in res.results:
+                if isinstance(v, PanicResult):
+                    self.finish(results, 'panic', s2, v.msg)
+                    continue
+                self.after_call(s2, s2.frames[fr.fid], dest, ret_bb, v)
+                work.append(s2)
+            return 'dead'
         if isinstance(res, PanicResult):
             self.finish(results, 'panic', st, res.msg)
             return 'dead'
@@ -1109,12 +1147,26 @@ class Executor:
             return self.invoke(st, fr, res[1], None, res[2], dest, ret_bb, work, results)
         return self.after_call(st, fr, dest, ret_bb, res)
 
+    def env_ref(self, st, clo):
+        if clo.env is None:
+            return UNIT
+        k = '__env%d' % st.nfid
+        st.nfid += 1
+        st.root()[k] = clo.env
+        return Ref(0, k, ())
+
     def after_call(self, st, fr, dest, ret_bb, val):
         if dest is not None:
             self.write_place(st, fr, dest, val)
         if ret_bb is None:
             raise Inconclusive('diverging call returned')
         fr.bb, fr.si = ret_bb, 0
+        return None
+
+    def find_override(self, text):
+        for rx, h in self.overrides:
+            if rx.search(text):
+                return h
         return None
 
     def find_summary(self, text):
